@@ -1,14 +1,98 @@
 /-
   C12 — Blob commitments follow the share-commitment rules.   PROPERTY THEOREMS ONLY.
+
+  ADR-013 is stated independently in `Spec/C12.lean` (subtree width, merkle mountain range, NMT subtree
+  roots of single-namespace leaf sets, RFC-6962 merkle root over them).  The theorems say that the
+  model of lumina's code (its doubling loops, `f64`-free ⌈√n⌉, nmt-rs `compute_root`, tendermint
+  `simple_hash_from_byte_vectors`) computes exactly that, for ALL share counts below 2^63 and all
+  blobs in scope, with ARBITRARY hash functions (no collision-freeness needed: these are equalities of
+  computations), and that validation accepts exactly the blobs whose stored commitment is that value.
 -/
-import Lumina.Model.Commitment
-import Lumina.Spec.C12
+import Lumina.Proofs.C12
 
 namespace Lumina.Props.C12
-open Lumina.Util Lumina.Model.Commitment Lumina.Gen.C12
+open Lumina.Util Lumina.Model.Commitment Lumina.Gen.C12 Lumina.Proofs.C12
+open Lumina.Spec.C12
 
 /-- the subtree-root threshold is 64 for every app version the code knows (1..7) -/
 theorem threshold_eq : ∀ app ∈ [1, 2, 3, 4, 5, 6, 7], subtreeRootThreshold app = some 64 := by
   decide
+
+/-- `round_up_to_power_of_2` / `round_down_to_power_of_2` are the next / previous power of two -/
+theorem rounding_spec (x : Nat) (hx : x ≤ 2 ^ 64) :
+    roundUpToPowerOf2 x = nextPow2 x ∧ (1 ≤ x → roundDownToPowerOf2 x = prevPow2 x) :=
+  ⟨roundUp_eq x hx, fun h1 => roundDown_eq x h1 hx⟩
+
+/-- **subtree width** = min (nextPow2 ⌈n / threshold⌉) (nextPow2 ⌈√n⌉), and it is a power of two -/
+theorem subtreeWidth_spec (n th : Nat) (hn : n < 2 ^ 63) :
+    Lumina.Model.Commitment.subtreeWidth n th = Lumina.Spec.C12.subtreeWidth n th ∧
+    ∃ k, Lumina.Model.Commitment.subtreeWidth n th = 2 ^ k := by
+  refine ⟨subtreeWidth_eq n th hn, ?_⟩
+  rw [subtreeWidth_eq n th hn]
+  exact subtreeWidth_pow2 n th
+
+/-- **merkle mountain range**: for every total `n` (any u64) and every power-of-two width, the sizes
+    the code produces are the greedy decomposition of the spec and satisfy the rule: they add up to
+    `n`, each is a power of two of at most `w`, they never increase and strictly decrease below `w`.
+    (Termination of the Rust loop is the fuel bound: every round removes at least one.) -/
+theorem mmr_spec (n w k : Nat) (hn : n ≤ 2 ^ 64) (hw : w = 2 ^ k) :
+    merkleMountainRangeSizes n w = mmrSizes w n n ∧ specSizes n w (merkleMountainRangeSizes n w) = true := by
+  have hw1 : 1 ≤ w := by rw [hw]; exact pow_pos' k
+  refine ⟨mmr_eq_spec n w hn, ?_⟩
+  rw [mmr_eq_spec n w hn]
+  simp only [specSizes, Bool.and_eq_true, beq_iff_eq]
+  exact ⟨⟨mmr_sum w hw1 n n (Nat.le_refl _), mmr_all w k hw n n⟩, mmr_chain w hw1 n n⟩
+
+/-- **the commitment of a share list** equals the merkle root over the NMT subtree roots of the
+    mountain-range partition — all share lists shorter than 2^63, all app versions, any hashes -/
+theorem commitment_spec {D : Type} (H : Lumina.Model.Merkle.HashFns D) (h : Lumina.Model.Nmt.HashFn)
+    (ns : Bytes) (shares : List Bytes) (app : Nat) (happ : app ∈ [1, 2, 3, 4, 5, 6, 7])
+    (hlen : shares.length < 2 ^ 63) :
+    fromShares H h ns shares app = .ok (commitment H h ns shares 64) :=
+  fromShares_eq H h ns shares app happ hlen
+
+/-- **the commitment of a blob** in scope is ADR-013's value over the blob's shares -/
+theorem blob_commitment_spec {D : Type} (H : Lumina.Model.Merkle.HashFns D) (h : Lumina.Model.Nmt.HashFn)
+    (ns data : Bytes) (sg : Option Bytes) (app : Nat) (happ : app ∈ [1, 2, 3, 4, 5, 6, 7])
+    (hs : Lumina.Spec.C11.inScope ns data sg app = true) :
+    fromBlob H h ns data (if sg.isSome then 1 else 0) sg app = .ok (blobCommitment H h ns data sg 64) := by
+  obtain ⟨h1, _, h3, h4, h5⟩ := Lumina.Proofs.C11.inScope_unpack ns data sg app hs
+  have hsplit := Lumina.Proofs.C11.split_eq ns data sg h1 h3 h4 (fun s hs => (h5 s hs).1)
+  have hval : Lumina.Model.Blob.validateBlob (if sg.isSome then 1 else 0) sg.isSome app = .ok () := by
+    cases sg with
+    | none => simp [Lumina.Model.Blob.validateBlob, Lumina.Gen.C11.SHARE_VERSION_ZERO, Lumina.Gen.C11.SHARE_VERSION_ONE]
+    | some s =>
+      have := (h5 s rfl).2
+      have h' : ¬ app < 3 := by omega
+      simp [Lumina.Model.Blob.validateBlob, Lumina.Gen.C11.SHARE_VERSION_ZERO, Lumina.Gen.C11.SHARE_VERSION_ONE, h']
+  unfold fromBlob blobCommitment
+  simp only [hval, hsplit, List.map_map]
+  have hid : ((fun (x : Lumina.Model.Blob.Share) => x.data) ∘ fun d => (⟨d, false⟩ : Lumina.Model.Blob.Share)) = id := by
+    funext d; rfl
+  rw [hid, List.map_id]
+  apply fromShares_eq H h ns _ app happ
+  rw [Lumina.Proofs.C11.expected_length]
+  simp only [Lumina.Spec.C11.sharesNeeded]
+  split <;> omega
+
+/-- **blob validation accepts exactly when the stored commitment equals that value** — every blob in
+    scope, every stored commitment -/
+theorem validate_iff {D : Type} [DecidableEq D] (H : Lumina.Model.Merkle.HashFns D) (h : Lumina.Model.Nmt.HashFn)
+    (ns data : Bytes) (sg : Option Bytes) (app : Nat) (stored : D) (happ : app ∈ [1, 2, 3, 4, 5, 6, 7])
+    (hs : Lumina.Spec.C11.inScope ns data sg app = true) :
+    specValidate H h ns data sg 64 stored
+      (match validate H h ⟨ns, data, if sg.isSome then 1 else 0, sg⟩ stored app with
+       | .ok => .ok | .mismatch => .mismatch | .err _ => .err) = true := by
+  unfold validate
+  simp only [blob_commitment_spec H h ns data sg app happ hs]
+  by_cases he : stored = blobCommitment H h ns data sg 64
+  · simp [he, specValidate]
+  · simp [he, specValidate]
+
+/-- non-vacuity: a power-of-two width and an in-range total; a blob in scope -/
+example : (64 : Nat) = 2 ^ 6 ∧ (5000 : Nat) ≤ 2 ^ 64 := by decide
+def exNs : Bytes := List.replicate 19 0 ++ List.replicate 10 7
+set_option maxRecDepth 8000 in
+example : Lumina.Spec.C11.inScope exNs [1, 2, 3] none 1 = true ∧ (1 : Nat) ∈ [1, 2, 3, 4, 5, 6, 7] := by decide
 
 end Lumina.Props.C12
